@@ -333,3 +333,9 @@ def mux_check(prop, tier, seed, replay):
 
 
 FAMILY = {p: mux_check for p in MUX}
+
+# self-contained "reference function" families (TLA+ as executable reference + TLC-validated logs)
+import fam_frame, fam_socks, fam_chain
+FAMILY["C09"] = fam_frame.check
+FAMILY["C18"] = fam_socks.check
+FAMILY["C20"] = fam_chain.check
